@@ -621,6 +621,8 @@ impl Process for JsonProcess {
     closed spec fn eager(&self) -> bool { true }
     closed spec fn rejects(&self, titles: Seq<String>) -> bool { false }
     closed spec fn header(&self, titles: Seq<String>) -> Seq<char> { Seq::empty() }
+    // starting the JSON printer changes nothing
+    closed spec fn sfut(&self, titles: Seq<String>, rows: Seq<Context>) -> Seq<char> { json_rows(self.printer, self.line_seperator@, rows) }
 
 //@@ fn jsonprocess.start = src/output_style.rs :: impl Process for JsonProcess :: fn start
 //@@ safety C02 C03 C16 C18 C20
@@ -821,6 +823,8 @@ impl Process for TextProcess {
     closed spec fn header(&self, titles: Seq<String>) -> Seq<char> {
         if self.printer.opts().headers { list_row(self.printer, titles.len() as int, self.line_seperator@, title_values(titles)) } else { Seq::empty() }
     }
+    // starting the text printer fixes the number of columns: one per selection name (none: the input value itself is printed)
+    closed spec fn sfut(&self, titles: Seq<String>, rows: Seq<Context>) -> Seq<char> { text_rows(self.printer, titles.len() as int, self.line_seperator@, rows) }
 
 //@@ fn textprocess.complete = src/output_style.rs :: impl Process for TextProcess :: fn complete
 //@@ safety C15 C03 C16 C20 C06 C11
